@@ -90,7 +90,7 @@ theorem numText_natToDec (n : Nat) : NumText (C05.natToDec n) := by
   have := C05.natToDec_dec n c hc
   unfold C05.IsDecByte at this
   simp only [numByteOK, Bool.or_eq_true, Bool.and_eq_true, decide_eq_true_eq]
-  refine Or.inl (Or.inl (Or.inl (Or.inl (Or.inl (Or.inl ⟨?_, ?_⟩)))))
+  refine Or.inl (Or.inl (Or.inl (Or.inl (Or.inl (Or.inl (Or.inl ⟨?_, ?_⟩))))))
   · exact UInt8.le_iff_toNat_le.2 (by simpa using this.1)
   · exact UInt8.le_iff_toNat_le.2 (by simpa using this.2)
 
@@ -125,6 +125,37 @@ floats with the library hypothesis -/
 theorem floatOK_of_bool {L : Lib} {b : UInt64} (h : floatHypOK L b = true) : FloatOK L b := by
   simp only [floatHypOK, Bool.and_eq_true] at h
   exact ⟨h.1, numText_of_bool h.2⟩
+
+theorem numByteOK_of_isNumByte : ∀ c : UInt8, C05.isNumByte c = true → numByteOK c = true := by
+  apply C05.forall_uint8; decide +kernel
+
+/-- the alphabet of `formatFloat64`'s output is not a separate hypothesis: under
+C05's `strconvOKAt` the text is accepted by `ParseNum` (`C05_float_roundtrip`),
+and everything `ParseNum` accepts is written in the number alphabet
+(`C05.parseNum_all`). -/
+theorem numText_of_strconv {L : Lib} {b : UInt64} (h : C05.strconvOKAt L.fmt b.toNat = true) :
+    NumText (C05.formatFloat64 L.fmt b.toNat) := by
+  have hrt := C05_float_roundtrip L.fmt b.toNat b.toNat_lt h
+  simp only [C05.toString] at hrt
+  refine ⟨?_, fun c hc => numByteOK_of_isNumByte c (C05.numByte_isNumByte c (C05.parseNum_all hrt c hc))⟩
+  intro hnil
+  rw [hnil, C05_reject_empty] at hrt
+  cases hrt
+
+theorem floatOK_of_strconv {L : Lib} {b : UInt64} (h : C05.strconvOKAt L.fmt b.toNat = true) : FloatOK L b :=
+  ⟨h, numText_of_strconv h⟩
+
+/-- C04's float hypothesis is C05's `strconvOKAt`, nothing more. -/
+theorem floatHypOK_eq_strconv (L : Lib) (b : UInt64) : floatHypOK L b = C05.strconvOKAt L.fmt b.toNat := by
+  unfold floatHypOK
+  cases h : C05.strconvOKAt L.fmt b.toNat with
+  | false => rfl
+  | true =>
+    have ht := numText_of_strconv h
+    have : numTextOK (C05.formatFloat64 L.fmt b.toNat) = true := by
+      simp only [numTextOK, Bool.and_eq_true, Bool.not_eq_true', List.isEmpty_eq_false_iff, List.all_eq_true]
+      exact ⟨ht.ne, ht.ok⟩
+    rw [this]; rfl
 
 def NumGood (L : Lib) : Val → Prop
   | .int i => C05.fitsInt i = true
